@@ -2032,17 +2032,22 @@ def msvcrt_memset(jitter):
 def msvcrt_strrchr(jitter):
     ret_ad, args = jitter.func_args_cdecl(['pstr','c'])
     s = get_win_str_a(jitter, args.pstr)
-    c = int_to_byte(args.c).decode()
-    ret = args.pstr + s.rfind(c)
-    log.info("strrchr(%x '%s','%s') = %x" % (args.pstr,s,c,ret))
+    c = int_to_byte(args.c & 0xFF)
+    # The terminating null character is part of the string
+    pos = encode_win_str_a(s).rfind(c)
+    ret = args.pstr + pos if pos >= 0 else 0
+    log.info("strrchr(%x '%s',%r) = %x" % (args.pstr,s,c,ret))
     jitter.func_ret_cdecl(ret_ad, ret)
 
 def msvcrt_wcsrchr(jitter):
     ret_ad, args = jitter.func_args_cdecl(['pstr','c'])
     s = get_win_str_w(jitter, args.pstr)
-    c = int_to_byte(args.c).decode()
-    ret = args.pstr + (s.rfind(c)*2)
-    log.info("wcsrchr(%x '%s',%s) = %x" % (args.pstr,s,c,ret))
+    c = pck16(args.c & 0xFFFF)
+    # The terminating null character is part of the string
+    data = encode_win_str_w(s)
+    pos = max([i for i in range(0, len(data), 2) if data[i:i + 2] == c] or [-1])
+    ret = args.pstr + pos if pos >= 0 else 0
+    log.info("wcsrchr(%x '%s',%r) = %x" % (args.pstr,s,c,ret))
     jitter.func_ret_cdecl(ret_ad, ret)
 
 def msvcrt_memcpy(jitter):
